@@ -69,16 +69,50 @@ ZeroState == [i \in 1..W |-> <<>>]
 Absorb(prev, elems, b) ==
     TLCEval([i \in 1..W |-> LET j == (b - 1) * RateWidth + (i - RateStart) + 1
                            IN  IF i >= RateStart /\ i < RateStart + RateWidth /\ j <= Len(elems) THEN AddF(prev[i], elems[j]) ELSE prev[i]])
+\* the Jive variant (rpjive64_256): the first capacity element is a padding flag (1 iff the number of elements is not a multiple of
+\* the rate), and "appending a 1 followed by zeros" to a partial last block is done by WRITING 1, 0, .. into the rest of the rate
+\* (for inputs longer than one block this overwrites what the previous permutation left there - the code as it is, named here)
+Jive == Hasher = "rpjive64_256"
+AbsorbJive(prev, elems, b) ==
+    LET r == Len(elems) - (b - 1) * RateWidth IN          \* elements in this block
+    TLCEval([i \in 1..W |-> LET p == i - RateStart + 1 IN   \* 1-based position within the rate
+                           IF p < 1 \/ p > RateWidth THEN prev[i]
+                           ELSE IF p <= r THEN AddF(prev[i], elems[(b - 1) * RateWidth + p])
+                           ELSE IF r < RateWidth /\ p = r + 1 THEN OneN
+                           ELSE IF r < RateWidth THEN <<>> ELSE prev[i]])
+InitState(n) == IF Jive THEN [ZeroState EXCEPT ![CapStart] = IF n % RateWidth # 0 THEN OneN ELSE <<>>]
+                ELSE [ZeroState EXCEPT ![CapStart] = FromInt(n)]
+Digest4(final) == [i \in 1..4 |-> final[DigestStart + i - 1]]
+\* merge: the sponge over the eight elements of the two digests; Jive: the compression mode x + y + P(x, y) summed over both halves
+JiveSum(pre, post) == [i \in 1..4 |-> AddF(AddF(pre[i], pre[4 + i]), AddF(post[i], post[4 + i]))]
+\* the elements an integer contributes: its residue, and its quotient by the modulus when it does not fit one element
+IntElems(v) == LET x == NormN(v) IN IF LessN(x, Modulus) THEN <<x>> ELSE <<DivModN(x, Modulus).r, DivModN(x, Modulus).q>>
+PlaceAt(state, start, elems) == [i \in 1..W |-> IF i >= start /\ i < start + Len(elems) THEN elems[i - start + 1] ELSE state[i]]
+RMerge == /\ E.ev = "rmerge"
+          /\ LET a == NormState(E.a)  b == NormState(E.b)  pre == NormState(E.pre)  post == NormState(E.post) IN
+             IF Jive THEN /\ pre = PlaceAt(ZeroState, 1, a \o b)
+                          /\ NormState(E.digest) = JiveSum(pre, post)
+             ELSE /\ pre = PlaceAt([ZeroState EXCEPT ![CapStart] = FromInt(8)], RateStart, a \o b)
+                  /\ NormState(E.digest) = Digest4(post)
+RMergeInt == /\ E.ev = "rmergeint"
+             /\ LET seed == NormState(E.seed)  ie == IntElems(E.v)  pre == NormState(E.pre)  post == NormState(E.post)
+                    cnt == FromInt(4 + Len(ie)) IN
+                IF Jive THEN /\ pre = [PlaceAt(ZeroState, 1, seed \o ie) EXCEPT ![W] = cnt]
+                             /\ NormState(E.digest) = JiveSum(pre, post)
+                ELSE /\ pre = PlaceAt([ZeroState EXCEPT ![CapStart] = cnt], RateStart, seed \o ie)
+                     /\ NormState(E.digest) = Digest4(post)
+
 Sponge == /\ E.ev = "sponge"
           /\ LET elems == NormState(E.elems)  n == Len(elems)  nb == NBlocks(n)
-                 init == [ZeroState EXCEPT ![CapStart] = FromInt(n)]                 \* capacity: number of elements
+                 init == InitState(n)                                                \* capacity: number of elements / padding flag
              IN  /\ (E.kind = "bytes" => elems = ChunkElems(E.bytes))                  \* 7-byte chunks, padded last chunk
                  /\ Len(E.pre) = nb /\ Len(E.post) = nb                               \* one permutation per (partial) block
-                 /\ \A b \in 1..nb : NormState(E.pre[b]) = Absorb(IF b = 1 THEN init ELSE NormState(E.post[b - 1]), elems, b)
+                 /\ \A b \in 1..nb : NormState(E.pre[b]) = (IF Jive THEN AbsorbJive(IF b = 1 THEN init ELSE NormState(E.post[b - 1]), elems, b)
+                                                                      ELSE Absorb(IF b = 1 THEN init ELSE NormState(E.post[b - 1]), elems, b))
                  /\ LET final == IF nb = 0 THEN init ELSE NormState(E.post[nb])
                     IN  NormState(E.digest) = [i \in 1..4 |-> final[DigestStart + i - 1]]   \* the library's digest
 
-Next == l <= Len(Rec) /\ (Consts \/ Perm \/ Sponge) /\ l' = l + 1
+Next == l <= Len(Rec) /\ (Consts \/ Perm \/ Sponge \/ RMerge \/ RMergeInt) /\ l' = l + 1
 Accepted ==
     LET dd == TLCGet("stats").diameter
     IN  IF dd = Len(Rec) + 1 THEN TRUE
